@@ -19,7 +19,10 @@ RULE = ('construction monitor: generated plans (random background of wire/child/
         'accept-only re-adds in the background); after every step a global invariant read from the object graph: over all live '
         'primitives an ordinary wire has at most one out port attached and it is getSource(); integrity: the undriven/driven extra '
         'port also on the special wires of a system (wire of the system clock driver, of a gated/derived driver of the level, of its '
-        'base drivers, enable wire, block-generated clock, wires of another scope incl. one named clk). non-trivial = the plan/case contains a fault (accept-only ones are trivial); distinct by content hash')
+        'base drivers, enable wire, block-generated clock, wires of another scope incl. one named clk). wire names are shared between '
+        'parents (1 new wire in 5 takes a name in use in another parent; before half of the reparentAndRename moves the target parent '
+        'gets an uninvolved wire carrying the moved wire\'s old name) and after every step, refused or accepted, every registered wire '
+        'must still be the object found under its name in its parent\'s table. non-trivial = the plan/case contains a fault (accept-only ones are trivial); distinct by content hash')
 SHARDS = {'quick': 1, 'thorough': 16}
 TIMEOUT = {'quick': 600, 'thorough': 3000}
 MIN_NONTRIVIAL = {'quick': 5000, 'thorough': 100000}
@@ -124,6 +127,7 @@ def run_sequences(run, tier, seed, shard, deadline):
         if run.too_many:
             break
     run.extra['seq_per_kind'] = per_kind
+    run.extra['seq_same_name_in_several_parents'] = dict(c11gen.STATS)
     run.extra['seq_plans_discarded_by_generator'] = discarded
     return per_kind
 
@@ -312,6 +316,9 @@ def coverage_floor(run, tier):
             run.inconclusive.append('re-added port class %s judged only %d times' % (k, rd.get(k, 0)))
     if run.counters.get('seq_driver_invariant_wire_checks', 0) < 1000 or run.counters.get('seq_readd_same_name_taken_from_a_detached_port', 0) < 20:
         run.inconclusive.append('driver invariant / same-name re-adds hardly exercised')
+    hs = run.extra.get('seq_same_name_in_several_parents', {})
+    if hs.get('homonym_wire_names', 0) < 100 or hs.get('moves_with_bystander_of_the_old_name_in_target', 0) < 20:
+        run.inconclusive.append('wire names shared between parents hardly exercised: %r' % hs)
     if run.extra.get('seq_plans_discarded_by_generator', 0) > 0.02 * max(1, plans):
         run.inconclusive.append('generator discarded %d plans' % run.extra['seq_plans_discarded_by_generator'])
     bf = run.extra.get('integrity_by_fault', {})
